@@ -411,7 +411,11 @@ pub fn gen_steps(sw: &mut Rng, wl: &mut Rng, sheets: usize, n: usize) -> Vec<Ste
                 steps.push(Step::O(s));
             }
             _ => {
-                if wl.chance(1, 3) {
+                if wl.chance(1, 8) {
+                    steps.push(Step::O(Op::ClearComments { sheet: wl.usize(sheets) }));
+                } else if wl.chance(1, 8) {
+                    steps.push(Step::O(Op::SetMacros { on: wl.chance(2, 3) }));
+                } else if wl.chance(1, 3) {
                     steps.push(Step::O(Op::RemoveSheet { sheet: wl.usize(sheets) }));
                 } else {
                     steps.push(Step::O(world::gen_cell_op(wl, &cfg, &tag)));
